@@ -761,7 +761,12 @@ impl SendBuf {
     // 通过传输层收到的ack帧，判定有些数据包丢失，因为它之后的数据包都被确认了，
     // 或者距离发送该段数据之后相当长一段时间都没收到它的确认。
     pub fn may_loss_data(&mut self, range: &Range<u64>) {
-        self.state.may_loss(range);
+        // frames sent before forget_sent_state() (0-RTT rejected) are still reported lost later:
+        // only the bytes offered since then can be recoloured
+        let end = range.end.min(self.state.sent());
+        if range.start < end {
+            self.state.may_loss(&(range.start..end));
+        }
     }
 
     pub fn resend_flighting(&mut self) {
